@@ -21,11 +21,13 @@ def _round(rng):
         elif pat == "equal":
             d = 0.01
         elif pat == "straggler":
-            d = 0.05 if i == 0 else 0.0
+            # submit_work() itself sleeps 0.05 s per unit: a straggler must
+            # outlast the submission of its successors to be overtaken
+            d = 0.05 * (w + 3) + 0.2 if i == 0 else 0.0
         elif pat == "reverse":
-            d = 0.05 * (n - i) / n
+            d = (0.05 * (w + 2) + 0.3) * (n - i) / n
         else:
-            d = rng.choice([0, 0, 0.001, 0.01, 0.05])
+            d = rng.choice([0, 0, 0.001, 0.01, 0.05, 0.3, 0.6])
         durs.append(d)
     units = [{"id": i, "dur": durs[i], "raise": rng.random() < 0.15,
               "payload": rng.choice([0, 0, 10, 100000, 2000000])
@@ -204,6 +206,10 @@ def work(job, scratch):
                 pass
         ev("executor_threads_left_after_stop",
            len(out.get("other_threads", [])))
+        # was any unit overtaken? (a later-submitted unit delivered first)
+        order = [d["got"] for d in out["delivered"]]
+        if any(a > b for a, b in zip(order, order[1:])):
+            ev("rounds_with_out_of_order_completion")
         res["sigs"].append("runner-%s-%s-%s-%d-%d-%s" % (
             spec["workers"], spec["pattern"], spec["mode"], len(ids),
             len(wit["raising"]), tuple(u["payload"] for u in spec["units"])))
